@@ -3,6 +3,7 @@ import Larking.Gen.Pool
 import Larking.Gen.Missing
 import Larking.Expected.C13
 import Larking.Lemmas.Pool
+import Larking.Lemmas.Lifecycle
 /-
   C13 — Concurrent requests are isolated.  sync.Pool is a shared bag whose Get returns ANY
   free object with whatever content it was left with; requests interleave at event
@@ -39,7 +40,19 @@ theorem skeleton_unchanged :
      Gen.Skel.conds_streamGRPC_decompress,
      Gen.Skel.stmts_streamGRPC_decompress,
      Gen.Skel.conds_createConnHandler,
-     Gen.Skel.stmts_createConnHandler)
+     Gen.Skel.stmts_createConnHandler,
+     Gen.Skel.conds_streamGRPC_begin,
+     Gen.Skel.stmts_streamGRPC_begin,
+     Gen.Skel.conds_streamGRPC_close,
+     Gen.Skel.stmts_streamGRPC_close,
+     Gen.Skel.conds_streamGRPC_SendHeader,
+     Gen.Skel.stmts_streamGRPC_SendHeader,
+     Gen.Skel.conds_streamGRPC_isDone,
+     Gen.Skel.stmts_streamGRPC_isDone,
+     Gen.Skel.conds_Mux_serveGRPC,
+     Gen.Skel.stmts_Mux_serveGRPC,
+     Gen.Skel.conds_webWriter_writeTrailer,
+     Gen.Skel.stmts_webWriter_writeTrailer)
   = (Expected.C13.conds_streamGRPC_RecvMsg,
      Expected.C13.stmts_streamGRPC_RecvMsg,
      Expected.C13.conds_streamGRPC_SendMsg,
@@ -63,7 +76,19 @@ theorem skeleton_unchanged :
      Expected.C13.conds_streamGRPC_decompress,
      Expected.C13.stmts_streamGRPC_decompress,
      Expected.C13.conds_createConnHandler,
-     Expected.C13.stmts_createConnHandler) := rfl
+     Expected.C13.stmts_createConnHandler,
+     Expected.C13.conds_streamGRPC_begin,
+     Expected.C13.stmts_streamGRPC_begin,
+     Expected.C13.conds_streamGRPC_close,
+     Expected.C13.stmts_streamGRPC_close,
+     Expected.C13.conds_streamGRPC_SendHeader,
+     Expected.C13.stmts_streamGRPC_SendHeader,
+     Expected.C13.conds_streamGRPC_isDone,
+     Expected.C13.stmts_streamGRPC_isDone,
+     Expected.C13.conds_Mux_serveGRPC,
+     Expected.C13.stmts_Mux_serveGRPC,
+     Expected.C13.conds_webWriter_writeTrailer,
+     Expected.C13.stmts_webWriter_writeTrailer) := rfl
 
 def zero : Nat → Nat := fun _ => 0
 
@@ -121,6 +146,31 @@ theorem early_put_leaks :
 /-- contrast (seeded): keeping an alias of the pooled buffer across the Put. -/
 theorem alias_after_put_rejected : disc [.get 0, .write 0 0, .read 0, .putKeep 0] zero = false := by decide
 
+/-! ### stream calls and the end of the RPC (`streamGRPC.begin` / `close`) -/
+
+/-- **No stream call outlives the RPC.** For every interleaving of stream calls beginning and
+returning (from the handler's goroutine or from goroutines it left behind, e.g. the
+RegisterConn forwarder's upload pump when the backend fails first) with the two halves of
+`close()`: once `close()` has returned — `serveGRPC` is about to give the ResponseWriter
+and the request body back — no call is in flight, and it stays so. -/
+theorem no_stream_call_after_close (steps more : List Lifecycle.Step) :
+    let s := Lifecycle.run true steps Lifecycle.init
+    s.waited = true → (Lifecycle.run true more s).count = 0 ∧ (Lifecycle.run true more s).waited = true := by
+  intro s hw
+  have hinv : Lifecycle.Inv (Lifecycle.run true more s) :=
+    Lifecycle.run_inv more s (Lifecycle.run_inv steps Lifecycle.init (by intro h; cases h))
+  have hw' : (Lifecycle.run true more s).waited = true := Lifecycle.run_waited_stays true more s hw
+  exact ⟨(hinv hw').2, hw'⟩
+
+/-- contrast (the code before the repair, a bare `wg.Add(1)`): a call can begin after `Wait`
+has returned — the WaitGroup misuse the race detector reported. -/
+theorem bare_add_can_follow_wait :
+    (Lifecycle.run false [.mark, .wait, .begin] Lifecycle.init).waited = true ∧
+    (Lifecycle.run false [.mark, .wait, .begin] Lifecycle.init).count = 1 := by decide
+
+example : Lifecycle.run true [.begin, .mark, .begin, .wait, .done, .wait, .begin] Lifecycle.init
+    = ⟨true, 0, true, 2⟩ := by decide
+
 end Larking.Props.C13
 
 #print axioms Larking.Props.C13.translator_complete
@@ -134,3 +184,5 @@ end Larking.Props.C13
 #print axioms Larking.Props.C13.double_put_rejected
 #print axioms Larking.Props.C13.early_put_leaks
 #print axioms Larking.Props.C13.alias_after_put_rejected
+#print axioms Larking.Props.C13.no_stream_call_after_close
+#print axioms Larking.Props.C13.bare_add_can_follow_wait
